@@ -114,7 +114,15 @@ def load_known():
 
 def finish(ctx, explanation, decides, not_decided, exhaustive=False, extra=None):
     """Apply floors and known findings, write evidence, print verdict lines; returns exit code."""
+    fl = {}
+    fp = os.path.join(VERIF, 'ofverif', 'floors.json')
+    if os.path.exists(fp):
+        fl = json.load(open(fp)).get(ctx.prop, {}).get(ctx.tier, {})
+    for rule, need in fl.items():
+        if rule not in ctx.rules:
+            raise AnalysisBroken(rule, 'rule produced no instance at all (frozen floor %d)' % need)
     for rule, r in sorted(ctx.rules.items()):
+        r['floor'] = max(r['floor'], fl.get(rule, 0))
         if r['instances'] < r['floor'] and not r['failed']:
             raise AnalysisBroken(rule, 'matched %d instances, floor confirmed by reading is %d '
                                  '(the code this rule is anchored in was restructured or the rule no '
